@@ -301,3 +301,7 @@ def run(ctx):
     ctx.guard("capture-guard", lambda: run_guards(ctx))
     ctx.guard("total", lambda: run_total(ctx))
     ctx.guard("negation-order", lambda: run_order(ctx))
+    # "each event satisfies its step's filter": translated filters are decided by the SASE comparator
+    # (values_compare / compare_values); its arm tables are checked by the rule shared with C08
+    from rules import C08
+    ctx.guard("arms", lambda: C08.run_comparator(ctx))
